@@ -478,7 +478,9 @@ class Lexer:
             ch = self._current()
 
             if ch == "\\" and self.pos + 1 < self.length:
-                # Escape sequence - include both characters
+                # Escape sequence - include both characters (a line break cannot be escaped)
+                if self.source[self.pos + 1] in "\n\r":
+                    raise JSSyntaxError("Unterminated regex literal", line, column)
                 pattern.append(self._advance())
                 pattern.append(self._advance())
             elif ch == "[":
@@ -492,7 +494,7 @@ class Lexer:
                 self._advance()
                 terminated = True
                 break
-            elif ch == "\n":
+            elif ch in "\n\r":
                 raise JSSyntaxError("Unterminated regex literal", line, column)
             else:
                 pattern.append(self._advance())
